@@ -257,7 +257,9 @@ pub fn c16(cx: &Ctx, rep: &mut Report) {
     let xi = crate::alpha::counter32(cx.seed, "seed", 9);
     for api in APIS {
         for kind in ["sk", "pk"] {
-            let provs: Vec<&str> = if kind == "sk" { vec!["keygen_from_seed", "try_keygen_with_rng", "try_from_bytes", "clone"] } else { vec!["keygen_from_seed", "try_keygen_with_rng", "try_from_bytes", "get_public_key", "clone"] };
+            let mut provs: Vec<&str> = if kind == "sk" { vec!["keygen_from_seed", "try_keygen_with_rng", "try_from_bytes", "clone"] } else { vec!["keygen_from_seed", "try_keygen_with_rng", "try_from_bytes", "get_public_key", "clone"] };
+            // deserialised keys with all-zero byte fields (a destructor that treats "looks empty" as "already wiped" skips them)
+            provs.extend(["try_from_bytes:rho=0", "try_from_bytes:K=0,tr=0", "try_from_bytes:rho=K=tr=0"]);
             for prov in provs {
                 rep.count(&format!("{kind}:{prov}"), 1);
                 rep.nontrivial_by_construction(1);
@@ -273,14 +275,9 @@ pub fn c16(cx: &Ctx, rep: &mut Report) {
                             rep.outcome("all_bytes_zero_after_drop", 1);
                         } else {
                             rep.outcome("residue_after_drop", 1);
-                            let field = if kind == "sk" {
-                                match after[0] { 0..=31 => "rho", 32..=63 => "K", 64..=127 => "tr", _ => "NTT-domain secret polynomials" }
-                            } else {
-                                match after[0] { 0..=31 => "rho", 32..=95 => "tr", _ => "t1 precompute" }
-                            };
                             rep.violate(Violation {
                                 key: format!("c16:{kind}:residue"),
-                                summary: format!("ML-DSA-{} {} obtained by {prov}: after drop, byte offsets {after:?}.. of the {n}-byte object are non-zero (field: {field})", api.p.id, if kind == "sk" { "PrivateKey" } else { "PublicKey" }),
+                                summary: format!("ML-DSA-{} {} obtained by {prov}: after drop, byte offsets {after:?}.. of the {n}-byte object are still non-zero", api.p.id, if kind == "sk" { "PrivateKey" } else { "PublicKey" }),
                                 replay,
                             });
                         }
